@@ -22,6 +22,9 @@ ASSUMPTIONS = ['CPython str semantics', 'the model driver is the compiled form o
                'math bodies contain no math switch of their own (no nested math), `$a$$b$` is out of scope, lists do not '
                'occur inside math, a bracket or brace directly (or after blanks) after an ordinary or sizing command is '
                'its argument and therefore not generated unbalanced there']
+LEAN_TARGETS = LEAN_TARGETS + ['TexSoupProofs.Properties.TableSpec']
+# entries of the generated tables that the property's statement names (they stop compiling when a table edit drops them)
+THEOREMS = THEOREMS + ['TexSoup.TableSpec.' + n for n in ['named_math_environments', 'zero_argument_operators', 'sizing_prefixes_and_delimiters']]
 
 _CACHE = {}
 
